@@ -19,6 +19,7 @@ RULE = ('programs: every arithmetic operator and compound assignment (name and i
         'inside the language (len, index_of); chains of 2-30 operations; numeric builtins int/float/round/floor/ceil/abs/sum/min/max '
         'over the pool. The oracle runs at every BinOp/UnaryOp/ShortOp exit and every numeric-builtin exit. Non-trivial = at least one '
         'monitored exit with a numeric operand was judged; distinct = distinct (source, host names).')
+RULE += ' Host numbers include int / float / Decimal subclasses and IntEnum members.'
 ASSUMPTIONS = ['size of a Decimal = length of its coefficient; of an int = number of decimal digits; a float result counts as <= 17, a float '
                'argument as its exact decimal expansion',
                'for numeric operands, "raises an arithmetic error" = an ArithmeticError subclass (decimal signals, ZeroDivisionError, OverflowError)',
